@@ -1,6 +1,10 @@
 package main
 
-import "strconv"
+import (
+	"bytes"
+	"strconv"
+	"strings"
+)
 
 func init() {
 	props["C04"] = runC04
@@ -62,6 +66,8 @@ func runC04(c *ctx) {
 		if i%2 == 0 {
 			runRM(c, "RM", sideState(side), fs, "-", chunkSpecs[(i/2)%len(chunkSpecs)], "eof")
 		}
+		// skip / discard patterns: skipped bytes never leak into a later message
+		runRDD(c, cfg, fs, chunkSpecs[(i+3)%len(chunkSpecs)], "eof", bufSpecs[(i+1)%len(bufSpecs)], []string{"d", "dr", "rd", "p", "pr", "drp"}[i%6])
 	})
 	// header split at every offset for a few streams with big payload classes
 	for _, side := range []byte{1, 2} {
@@ -82,6 +88,10 @@ func runC04(c *ctx) {
 	for j := 0; j < n; j++ {
 		side := byte(1 + c.rng.Intn(2))
 		nf := 1 + c.rng.Intn(12)
+		sameKey = 0
+		if j%4 == 1 {
+			sameKey = 1 + j%200 // consecutive frames masked with the same key
+		}
 		if j%50 == 7 {
 			nf = 100 + c.rng.Intn(100)
 		}
@@ -101,9 +111,11 @@ func runC04(c *ctx) {
 		w := wireOf(fs)
 		runRD(c, "RD", cfg, fs, "-", c.randChunkSpec(len(w)), "eof", bufSpecs[c.rng.Intn(len(bufSpecs))])
 		runRM(c, "RM", side, fs, "-", c.randChunkSpec(len(w)), "eof")
+		runRDD(c, cfg, fs, c.randChunkSpec(len(w)), "eof", bufSpecs[c.rng.Intn(len(bufSpecs))], []string{"d", "dr", "rd", "p", "pr", "drp", "rrd"}[c.rng.Intn(7)])
 		// scripts with Discard at random points and partial reads
 		c.randScript(rcfg{state: side, chk: cfg.chk, cb: 1}, w)
 	}
+	sameKey = 0
 }
 
 func (c *ctx) randScript(cfg rcfg, w []byte) {
@@ -196,6 +208,9 @@ func runC05(c *ctx) {
 			if i%3 == 0 {
 				runRM(c, "RM", side, fs, "-", chunkSpecs[(i/3)%len(chunkSpecs)], "eof")
 			}
+			if i%2 == 0 {
+				runRDD(c, cfg, fs, chunkSpecs[(i+1)%len(chunkSpecs)], "eof", bufSpecs[(i+2)%len(bufSpecs)], []string{"d", "dr", "p"}[i%3])
+			}
 		}
 	})
 	// MaxFrameSize around the announced length
@@ -235,6 +250,8 @@ func runC05(c *ctx) {
 		w := wireOf(fs2)
 		runRD(c, "RD", cfg, fs2, "-", c.randChunkSpec(len(w)), "eof", bufSpecs[c.rng.Intn(len(bufSpecs))])
 		runRM(c, "RM", side, fs2, "-", c.randChunkSpec(len(w)), "eof")
+		// the violation may sit inside a message the caller is skipping
+		runRDD(c, cfg, fs2, c.randChunkSpec(len(w)), "eof", bufSpecs[c.rng.Intn(len(bufSpecs))], []string{"d", "dr", "rd", "p", "pd"}[c.rng.Intn(5)])
 	}
 }
 
@@ -242,6 +259,33 @@ func runC05(c *ctx) {
 func runC07(c *ctx) {
 	runU8(c, 2000)
 	runU8R(c)
+	nr := 300
+	if c.thor {
+		nr = 5000
+	}
+	for i := 0; i < nr; i++ {
+		p, spec := c.utf8Runs()
+		u8(c, p)
+		u8r(c, p, spec, []string{"4096", "64", "16", "17"}[i%4])
+		// as a text message: one fragment per piece
+		side := byte(1 + i%2)
+		var fs []sframe
+		rest := p
+		parts := strings.Split(spec, ",")
+		for k, ps := range parts {
+			n, _ := strconv.Atoi(ps)
+			if spec == "-" || n > len(rest) {
+				n = len(rest)
+			}
+			f := c.mkFrame(side, k == len(parts)-1, map[bool]byte{true: 1, false: 0}[k == 0], 0)
+			f.payload = rest[:n]
+			rest = rest[n:]
+			fs = append(fs, f)
+		}
+		fs[len(fs)-1].payload = append(fs[len(fs)-1].payload, rest...)
+		runRD(c, "RD", rcfg{state: side, chk: true, cb: 1}, fs, "-", "-", "eof", "4096")
+		runRM(c, "RM", side, fs, "-", "r4096", "eof")
+	}
 	var samples [][]byte
 	samples = append(samples, reasonSamples...)
 	ns := 60
@@ -285,6 +329,43 @@ func runC07(c *ctx) {
 			}
 		}
 	}
+}
+
+// multi-byte sequence opened, a long ASCII run, then the rest: chunk sizes = piece sizes
+func (c *ctx) utf8Runs() ([]byte, string) {
+	seqs := [][]byte{{0xc3, 0xa9}, {0xe2, 0x82, 0xac}, {0xf0, 0x9f, 0x98, 0x80}, {0xed, 0xa0, 0x80}, {0xe2, 0x82}, {0xc3}}
+	var out []byte
+	var sizes []string
+	for k := 0; k < 1+c.rng.Intn(3); k++ {
+		sq := seqs[c.rng.Intn(len(seqs))]
+		cut := c.rng.Intn(len(sq) + 1)
+		run := bytes.Repeat([]byte{byte('a' + c.rng.Intn(26))}, []int{0, 1, 15, 16, 17, 33, 64}[c.rng.Intn(7)])
+		switch c.rng.Intn(3) {
+		case 0: // ASCII run inside the sequence (invalid)
+			out = append(out, sq[:cut]...)
+			out = append(out, run...)
+			out = append(out, sq[cut:]...)
+			sizes = append(sizes, strconv.Itoa(cut), strconv.Itoa(len(run)), strconv.Itoa(len(sq)-cut))
+		case 1: // run after the sequence (valid when the sequence is)
+			out = append(out, sq...)
+			out = append(out, run...)
+			sizes = append(sizes, strconv.Itoa(len(sq)), strconv.Itoa(len(run)))
+		default: // run before
+			out = append(out, run...)
+			out = append(out, sq...)
+			sizes = append(sizes, strconv.Itoa(len(run)), strconv.Itoa(cut), strconv.Itoa(len(sq)-cut))
+		}
+	}
+	var sz []string
+	for _, x := range sizes {
+		if x != "0" {
+			sz = append(sz, x)
+		}
+	}
+	if len(sz) == 0 {
+		return out, "-"
+	}
+	return out, strings.Join(sz, ",")
 }
 
 // C13: MessageState attached; all RSV patterns on every frame kind
